@@ -2,7 +2,7 @@
    Models: Audit (histories of tasks over a persistent record store) and Json (the record schema as tokens and bytes). *)
 From Coq Require Import List Ascii String Arith Bool Lia.
 Import ListNotations.
-From SP Require Import Skel Gen Expected Str PathLex Audit Json JsonProofs JsonBytes.
+From SP Require Import Skel Gen Expected ExpectedCones Str PathLex Audit Json JsonProofs JsonBytes.
 Notation length := List.length.
 
 (* T1: an IP created for an existing file loads <path>.audit.json; the audit file is written before the outputs are
@@ -63,6 +63,19 @@ Proof. exact JsonBytes.decode_jrender. Qed.
 Theorem C11_roundtrip_bytes_example : ascii_rec ex_rec /\ decode (jrender 0 ex_rec) = Some ex_rec.
 Proof. exact (conj JsonBytes.ascii_rec_ex JsonProofs.decode_render_example). Qed.
 
+(* T1, call cones: every function of scipipe that the functions above can reach (calls and function values, interface calls
+   resolved to every implementation) is one the models were compared with -- a helper that is new to the cone, or a new call
+   of an old one, changes a list (the lists are regenerated from /repo on every run; ExpectedCones.v holds the accepted ones) *)
+Theorem C11_cone_conforms :
+  strs_eqb cone_NewFileIP exp_cone_NewFileIP
+  && strs_eqb cone_FileIP_AuditInfo exp_cone_FileIP_AuditInfo
+  && strs_eqb cone_UnmarshalAuditInfoJSONFile exp_cone_UnmarshalAuditInfoJSONFile
+  && strs_eqb cone_FileIP_WriteAuditLogToFile exp_cone_FileIP_WriteAuditLogToFile
+  && strs_eqb cone_Task_writeAuditLogs exp_cone_Task_writeAuditLogs
+  && strs_eqb cone_Task_Execute exp_cone_Task_Execute
+  && strs_eqb cone_FinalizePaths exp_cone_FinalizePaths = true.
+Proof. vm_compute. reflexivity. Qed.
+
 Print Assumptions C11_code_conforms.
 Print Assumptions C11_resume_keeps_records.
 Print Assumptions C11_resume_same_lineage.
@@ -72,3 +85,4 @@ Print Assumptions C11_roundtrip_strings.
 Print Assumptions C11_lexer_reads_rendering.
 Print Assumptions C11_roundtrip_bytes.
 Print Assumptions C11_roundtrip_bytes_example.
+Print Assumptions C11_cone_conforms.
